@@ -11,6 +11,10 @@ for d in sorted(glob.glob(os.path.join(VERIF, 'seeded', '*'))):
     notes = ' '.join(m.get('needs_to_manifest', '').split())
     first = m.get('summary') or notes[:230]
     r = m['check_result']
+    if m.get('judged_by'):
+        r = dict(m['check_result_judged_by'])
+        m = dict(m, property='%s (violates %s)' % (m['property'], m['judged_by']))
+        r['_by'] = m['judged_by'] if False else None
     print('| `%s` | %s | %s | %s | %s |' % (os.path.basename(d), m['property'], first.replace('|', '/'),
-                                           ('./check %s (%s)' % (m['property'], r['tier'])) if r['caught'] else 'MISSED',
+                                           ('./check %s (%s)' % (m.get('judged_by') or m['property'].split()[0], r['tier'])) if r['caught'] else 'MISSED',
                                            ', '.join(r['clauses'][:4])))
